@@ -255,25 +255,25 @@ class _AsyncioReadWriteLock(ReadWriteLock):
     def subsystem(self) -> str:
         return 'asyncio'
 
-    async def _acquire_read(self) -> bool:
+    async def _acquire_read(self) -> None:
         async with self._read_lock:
+            if self._counter == 0:
+                await self._write_lock.acquire()
             self._counter += 1
-            return self._counter == 1
 
-    async def _release_read(self) -> bool:
-        async with self._read_lock:
-            self._counter -= 1
-            return self._counter == 0
+    def _release_read(self) -> None:
+        # No suspension here, so a cancelled reader always gives up its place.
+        self._counter -= 1
+        if self._counter == 0:
+            self._write_lock.release()
 
     @asynccontextmanager
     async def read_lock(self) -> AsyncIterator[None]:
-        if await self._acquire_read():
-            await self._write_lock.acquire()
+        await self._acquire_read()
         try:
             yield
         finally:
-            if await self._release_read():
-                self._write_lock.release()
+            self._release_read()
 
     @asynccontextmanager
     async def write_lock(self) -> AsyncIterator[None]:
@@ -293,25 +293,25 @@ class _ThreadingReadWriteLock(ReadWriteLock):  # pragma: no cover
     def subsystem(self) -> str:
         return 'threading'
 
-    def _acquire_read(self) -> bool:
+    def _acquire_read(self) -> None:
         with self._read_lock:
+            if self._counter == 0:
+                self._write_lock.acquire()
             self._counter += 1
-            return self._counter == 1
 
-    def _release_read(self) -> bool:
+    def _release_read(self) -> None:
         with self._read_lock:
             self._counter -= 1
-            return self._counter == 0
+            if self._counter == 0:
+                self._write_lock.release()
 
     @asynccontextmanager
     async def read_lock(self) -> AsyncIterator[None]:
-        if self._acquire_read():
-            self._write_lock.acquire()
+        self._acquire_read()
         try:
             yield
         finally:
-            if self._release_read():
-                self._write_lock.release()
+            self._release_read()
 
     @asynccontextmanager
     async def write_lock(self) -> AsyncIterator[None]:
